@@ -11,12 +11,15 @@ Record case := {
   keyset : list string }.                   (* sorted registry keys *)
 
 Definition ofn_eqb (a b : option nat) : bool := match a, b with Some x, Some y => Nat.eqb x y | None, None => true | _, _ => false end.
+(* 4998: the name was resolved to a registered entry, whose view could not be constructed (the request failed later, not with -32601) *)
+Definition reach_eqb (spec obs : option nat) : bool :=
+  match obs with Some 4998 => match spec with Some _ => true | None => false end | _ => ofn_eqb spec obs end.
 Definition sorted_keys (r : reg) : list string := map fst (sort_kvs r).
 Definition mismatch (c : case) : bool :=
-  negb (forallb (fun p => ofn_eqb (get (fst p) (eval (hist c))) (snd p)) (probes c)
+  negb (forallb (fun p => reach_eqb (get (fst p) (eval (hist c))) (snd p)) (probes c)
         && list_eqb String.eqb (sorted_keys (eval (hist c))) (keyset c)).
 Definition ok (c : case) : bool :=
-  forallb (fun p => ofn_eqb (spec_lookup (fst p) (hist c)) (snd p)) (probes c)
+  forallb (fun p => reach_eqb (spec_lookup (fst p) (hist c)) (snd p)) (probes c)
   && forallb (fun k => match spec_lookup k (hist c) with Some _ => true | None => false end) (keyset c)
   && forallb (fun kv => mem_str (fst kv) (keyset c)) (entries [] (hist c)).
 Definition check (c : case) : nat :=
